@@ -281,12 +281,12 @@ def place(cx):
     for c in rects:
         if len(c.args) != 4:
             continue
-        ref = canon(c.args[3], None, None, params)
-        rots = [x for x in walk_no_nested(fk.fn) if isinstance(x, ast.Call) and isinstance(x.func, ast.Attribute) and x.func.attr == "rotate_translate_local" and canon(x.func.value, None, None, params) == "%s.position" % st]
+        ref = canon(c.args[3], rd, rd.stmt_of(c), params)
+        rots = [x for x in walk_no_nested(fk.fn) if isinstance(x, ast.Call) and isinstance(x.func, ast.Attribute) and x.func.attr == "rotate_translate_local" and canon(x.func.value, rd, rd.stmt_of(x), params) == "%s.position" % st]
         res.check("OCC-PLACE", "uncertain position region is re-expressed in the reference frame", len(rots) >= 1, fk.mod, c, "%d rotations of %s.position" % (len(rots), st), "the extents of the position region are not measured along the reference orientation", qualname=fk.name)
         for x in rots:
             a = x.args[1] if len(x.args) > 1 else None
-            ok = a is not None and isinstance(a, ast.UnaryOp) and isinstance(a.op, ast.USub) and canon(a.operand, None, None, params) == ref
+            ok = a is not None and isinstance(a, ast.UnaryOp) and isinstance(a.op, ast.USub) and norm(a.operand) == norm(c.args[3])
             ok = ok and norm(x.args[0]).replace(" ", "") in ("np.array([0,0])", "np.array([0.0,0.0])", "np.zeros(2)")
             res.check("OCC-PLACE", "position region rotated by minus the reference orientation about the origin", ok, fk.mod, x, norm(x), "the region is rotated the wrong way (or shifted): its extents are measured in another frame than the enclosing rectangle's, which then does not cover every admissible position", qualname=fk.name)
     # signature roles of rotate_translate_local
@@ -396,63 +396,57 @@ def _same_state(rd, arg, at, loopvar):
 
 
 def dispatch(cx):
+    """Rules on (condition -> answer) pairs, independent of how the method is laid out (early returns or a result
+    variable, hoisted locals, private fields or getters)."""
+    from ..flowtools import guards_not_none, is_none, result_cases
+
     repo, res = cx.repo, cx.res
     init_ts = "self.initial_state.time_step"
-    for meth, initial_answers, delegate in (("occupancy_at_time", None, "occupancy_at_time_step"), ("state_at_time", "self.initial_state", "state_at_time_step")):
+    for meth, delegate in (("occupancy_at_time", "occupancy_at_time_step"), ("state_at_time", "state_at_time_step")):
         fk = cx.fn(O, "DynamicObstacle", meth)
         tp = [a.arg for a in fk.fn.args.args][1]
         rd = ReachingDefs(fk.fn)
 
         def atoms(e):
-            t = canon(e, None, None, [tp])
+            t = norm(e)
             return t if t in (tp, init_ts) else None
 
-        # delegations
-        dels = [c for c in walk_no_nested(fk.fn) if isinstance(c, ast.Call) and isinstance(c.func, ast.Attribute) and c.func.attr == delegate]
-        res.check("OCC-DISPATCH", "DynamicObstacle.%s delegates to %s" % (meth, delegate), len(dels) >= 1, fk.mod, fk.fn, "no call of %s" % delegate, "later time steps are not answered by the prediction", qualname=fk.name)
-        for c in dels:
-            args = [norm(a) for a in c.args] + [norm(k.value) for k in c.keywords]
-            res.check("OCC-DISPATCH", "%s passes the queried time step to the prediction" % meth, args == [tp], fk.mod, c, norm(c), "the prediction is asked about another time step than the one queried", qualname=fk.name)
-            guards = dominating_guards(fk.mod, c, stop=fk.fn)
-            facts = []
-            for t, pol in guards:
-                facts += inequalities(t, pol, atoms)
-            later = implied({tp: 1, init_ts: -1}, True, facts)
-            res.check("OCC-DISPATCH", "%s consults the prediction only for t > initial time step" % meth, later, fk.mod, c, "%s under %s" % (norm(c.func), sorted(("" if p else "not ") + norm(t) for t, p in guards)), "the prediction is consulted at or before the initial time step (or the guard was lost)", qualname=fk.name)
-            from ..core import guard_says_not_none
-            nn = guard_says_not_none(guards, "self._prediction") or guard_says_not_none(guards, "self.prediction")
-            res.check("OCC-DISPATCH", "%s consults the prediction only if there is one" % meth, nn, fk.mod, c, "%s without a None test" % norm(c.func), "an obstacle without prediction raises instead of answering None", qualname=fk.name)
-        # the initial answer
-        tests = [n for n in ast.walk(fk.fn) if isinstance(n, ast.Compare) and len(n.ops) == 1 and isinstance(n.ops[0], ast.Eq) and {canon(n.left, None, None, [tp]), canon(n.comparators[0], None, None, [tp])} == {tp, init_ts}]
-        res.check("OCC-DISPATCH", "%s answers the initial data exactly at the initial time step" % meth, len(tests) == 1, fk.mod, fk.fn, "%d tests `%s == %s`" % (len(tests), tp, init_ts), "the initial state / occupancy is not tied to the initial time step", qualname=fk.name)
-        for t in tests:
-            iff = repo.mod(O).parent.get(t)
-            if not isinstance(iff, ast.If) or iff.test is not t:
-                res.bad("OCC-DISPATCH", "%s initial branch" % meth, Finding("OCC-DISPATCH", fk.mod, t, norm(t), "the initial-time test does not guard a branch on its own", qualname=fk.name))
+        cases = result_cases(fk.mod, fk.fn, rd, [tp])
+        kinds = {"initial": 0, "delegate": 0, "none": 0}
+        for c in cases:
+            txt = c.text(rd, [tp])
+            gtxt = sorted(("" if p else "not ") + t for t, p, _n in c.guards)
+            v = c.value
+            # through a conditional expression etc. we do not look: classify by the canonical text
+            if is_none(v):
+                kinds["none"] += 1
                 continue
-            body_txt = " ".join(norm(s) for s in iff.body)
-            if meth == "state_at_time":
-                ok = len(iff.body) == 1 and isinstance(iff.body[0], ast.Return) and canon(iff.body[0].value, None, None, []) == "self.initial_state"
+            vc = ast.parse(txt, mode="eval").body
+            is_initial = txt == "self.initial_state" if meth == "state_at_time" else (isinstance(vc, ast.Call) and call_name(vc) == "Occupancy" and sorted([norm(a) for a in vc.args] + [norm(k.value) for k in vc.keywords]) == sorted([tp, "self.initial_occupancy_shape"]))
+            is_delegate = isinstance(vc, ast.Call) and isinstance(vc.func, ast.Attribute) and vc.func.attr == delegate
+            if is_initial:
+                kinds["initial"] += 1
+                eq = any(p and isinstance(n, ast.Compare) and len(n.ops) == 1 and isinstance(n.ops[0], ast.Eq) and {norm(n.left), norm(n.comparators[0])} == {tp, init_ts} for _t, p, n in c.guards)
+                if meth == "occupancy_at_time":
+                    a0 = (vc.args[0] if vc.args else [k.value for k in vc.keywords if k.arg == "time_step"][0])
+                    eq = eq and norm(a0) == tp
+                res.check("OCC-DISPATCH", "%s answers the initial data exactly at the initial time step" % meth, eq, fk.mod, c.stmt, "%s: %s under %s" % (meth, txt, gtxt), "the initial state / occupancy is returned for other time steps than the initial one (or stamped with another time step)", qualname=fk.name)
+            elif is_delegate:
+                kinds["delegate"] += 1
+                args = [norm(a) for a in vc.args] + [norm(k.value) for k in vc.keywords]
+                res.check("OCC-DISPATCH", "%s passes the queried time step to the prediction" % meth, args == [tp], fk.mod, c.stmt, txt, "the prediction is asked about another time step than the one queried", qualname=fk.name)
+                facts = []
+                for _t, p, n in c.guards:
+                    facts += inequalities(n, p, atoms)
+                later = implied({tp: 1, init_ts: -1}, True, facts)
+                res.check("OCC-DISPATCH", "%s consults the prediction only for t > initial time step" % meth, later, fk.mod, c.stmt, "%s under %s" % (txt, gtxt), "the prediction is consulted at or before the initial time step (or the guard was lost)", qualname=fk.name)
+                nn = guards_not_none(c.guards, "self.prediction")
+                res.check("OCC-DISPATCH", "%s consults the prediction only if there is one" % meth, nn, fk.mod, c.stmt, "%s under %s" % (txt, gtxt), "an obstacle without prediction raises instead of answering None", qualname=fk.name)
             else:
-                occs = [c for s in iff.body for c in ast.walk(s) if isinstance(c, ast.Call) and call_name(c) == "Occupancy"]
-                ok = len(occs) == 1 and [norm(a) for a in occs[0].args] + [norm(k.value) for k in occs[0].keywords] == [tp, "self._initial_occupancy_shape"]
-            res.check("OCC-DISPATCH", "%s initial branch returns the initial %s" % (meth, "state" if meth == "state_at_time" else "occupancy"), ok, fk.mod, iff, body_txt, "at the initial time step something else than the initial data is returned", qualname=fk.name)
-        # default is None
-        if meth == "occupancy_at_time":
-            rets = [r for r in walk_no_nested(fk.fn) if isinstance(r, ast.Return)]
-            ok = len(rets) == 1 and isinstance(rets[0].value, ast.Name)
-            if ok:
-                first = [d for d in rd.defs(rets[0].value.id, fk.fn.body[-1])]
-                inits = [s for s in fk.fn.body if isinstance(s, ast.Assign) and norm(s.targets[0]) == rets[0].value.id]
-                ok = bool(inits) and isinstance(inits[0].value, ast.Constant) and inits[0].value.value is None
-            res.check("OCC-DISPATCH", "occupancy_at_time defaults to None", ok, fk.mod, fk.fn, "default of the returned variable", "outside the horizon something else than None is returned", qualname=fk.name)
-        else:
-            # every return is the initial state, a delegation, or None
-            for r in walk_no_nested(fk.fn):
-                if isinstance(r, ast.Return):
-                    v = r.value
-                    ok = v is None or (isinstance(v, ast.Constant) and v.value is None) or canon(v, None, None, []) == "self.initial_state" or (isinstance(v, ast.Call) and v in dels)
-                    res.check("OCC-DISPATCH", "state_at_time returns initial state / predicted state / None", ok, fk.mod, r, norm(r), "an unexpected value is returned as the state", qualname=fk.name)
+                res.bad("OCC-DISPATCH", "%s: unexpected answer" % meth, Finding("OCC-DISPATCH", fk.mod, c.stmt, "%s returns %s under %s" % (meth, txt[:80], gtxt), "the answer is neither the initial data, the prediction's answer for the same time step, nor None", qualname=fk.name))
+        res.check("OCC-DISPATCH", "DynamicObstacle.%s has an initial answer" % meth, kinds["initial"] >= 1, fk.mod, fk.fn, "%s: %s" % (meth, kinds), "the initial state / occupancy is never returned", qualname=fk.name)
+        res.check("OCC-DISPATCH", "DynamicObstacle.%s delegates to %s" % (meth, delegate), kinds["delegate"] >= 1, fk.mod, fk.fn, "%s: %s" % (meth, kinds), "later time steps are not answered by the prediction", qualname=fk.name)
+        res.check("OCC-DISPATCH", "DynamicObstacle.%s answers None otherwise" % meth, kinds["none"] >= 1, fk.mod, fk.fn, "%s: %s" % (meth, kinds), "outside the horizon something else than None is returned", qualname=fk.name)
     # every time-step lookup of the prediction / trajectory classes (base implementations and overrides)
     n_lookup = 0
     for rel, meth, lists in ((P, "occupancy_at_time_step", ("self.occupancy_set",)), (T, "state_at_time_step", ("self.state_list",))):
@@ -609,10 +603,21 @@ def scenario(cx):
                 ok = _filter_guard(guards, lv, attr, pname)
                 res.check("OCC-SCENARIO", "filter on %s: (param is None or obstacle.%s == param)" % (attr, attr), ok, fk.mod, c, "append under %s" % sorted(("" if p else "not ") + norm(t) for t, p in guards), "the %s filter does not compare the obstacle's %s with the requested one" % (attr, attr), qualname=fk.name)
 
-    # obstacles_by_position_intervals
+    # obstacles_by_position_intervals  (layout independent: loops or comprehensions, inline tests or nested predicates)
     fk = cx.fn(S, "Scenario", "obstacles_by_position_intervals")
     tp = "time_step"
     n_br = 0
+
+    def iterations(node):
+        out = []
+        for n in ast.walk(node):
+            if isinstance(n, ast.For):
+                out.append((n.target, n.iter, n))
+            elif isinstance(n, (ast.ListComp, ast.SetComp, ast.GeneratorExp)):
+                for g in n.generators:
+                    out.append((g.target, g.iter, n))
+        return out
+
     for iff in [n for n in walk_no_nested(fk.fn) if isinstance(n, ast.If)]:
         t = iff.test
         if isinstance(t, ast.Compare) and len(t.ops) == 1 and isinstance(t.ops[0], ast.In):
@@ -620,29 +625,45 @@ def scenario(cx):
             if ch and len(ch) == 2 and ch[0] == "ObstacleRole":
                 role = ch[1]
                 n_br += 1
-                loops = [n for n in iff.body if isinstance(n, ast.For)]
+                body = ast.Module(body=iff.body, type_ignores=[])
+                its = iterations(body)
                 want = sorted(p for p, (_c, r) in reg_role.items() if r == role)
-                got = sorted(norm(lp.iter).replace("self.", "") for lp in loops)
-                res.check("OCC-SCENARIO", "position filter: role %s iterates registry %s" % (role, want), got == want, fk.mod, iff, "if %s: for .. in %s" % (norm(t), got), "the obstacles inspected for role %s are those of another role" % role, qualname=fk.name)
-                for lp in loops:
-                    lv = norm(lp.target)
-                    for c in ast.walk(lp):
-                        if isinstance(c, ast.Call) and isinstance(c.func, ast.Attribute) and c.func.attr == "occupancy_at_time":
-                            res.check("OCC-SCENARIO", "position filter asks the occupancy at the queried time step", norm(c.func.value) == lv and [norm(a) for a in c.args] == [tp], fk.mod, c, norm(c), "the position is taken at another time step than requested", qualname=fk.name)
-                        if isinstance(c, ast.Call) and isinstance(c.func, ast.Attribute) and c.func.attr == "append":
-                            res.check("OCC-SCENARIO", "position filter returns the obstacle it tested", [norm(a) for a in c.args] == [lv], fk.mod, c, norm(c), "something else than the tested obstacle is returned", qualname=fk.name)
+                got = sorted({canon(it, None, None, []).replace("self.", "") for _t, it, _n in its})
+                res.check("OCC-SCENARIO", "position filter: role %s iterates registry %s" % (role, want), got == want, fk.mod, iff, "if %s: iterates %s" % (norm(t), got), "the obstacles inspected for role %s are those of another role" % role, qualname=fk.name)
+                vars_ = {norm(tg) for tg, _i, _n in its}
+                for c in ast.walk(body):
+                    if isinstance(c, ast.Call) and isinstance(c.func, ast.Attribute) and c.func.attr == "append":
+                        res.check("OCC-SCENARIO", "position filter returns the obstacle it tested", len(c.args) == 1 and norm(c.args[0]) in vars_, fk.mod, c, norm(c), "something else than the tested obstacle is returned", qualname=fk.name)
+                    if isinstance(c, ast.Call) and isinstance(c.func, ast.Attribute) and c.func.attr == "extend" and c.args and isinstance(c.args[0], (ast.GeneratorExp, ast.ListComp)):
+                        g = c.args[0]
+                        res.check("OCC-SCENARIO", "position filter returns the obstacle it tested", norm(g.elt) == norm(g.generators[0].target), fk.mod, c, norm(c)[:100], "something else than the tested obstacle is returned", qualname=fk.name)
     res.check("OCC-SCENARIO", "position filter has one branch per role", n_br == len(reg_role), fk.mod, fk.fn, "%d role branches" % n_br, "a role cannot be filtered by position", qualname=fk.name)
-    # the nested predicate pairs x with interval 0 and y with interval 1
-    inner = [n for n in fk.fn.body if isinstance(n, ast.FunctionDef)]
-    for f in inner:
-        pp = [a.arg for a in f.args.args]
-        calls = [c for c in ast.walk(f) if isinstance(c, ast.Call) and isinstance(c.func, ast.Attribute) and c.func.attr == "contains"]
+    occ_calls = [c for c in ast.walk(fk.fn) if isinstance(c, ast.Call) and isinstance(c.func, ast.Attribute) and c.func.attr == "occupancy_at_time"]
+    res.check("OCC-SCENARIO", "position filter consults the occupancy of the obstacles", len(occ_calls) >= 1, fk.mod, fk.fn, "%d occupancy_at_time calls" % len(occ_calls), "positions of moving obstacles are not taken from their occupancy", qualname=fk.name)
+    for c in occ_calls:
+        res.check("OCC-SCENARIO", "position filter asks the occupancy at the queried time step", [norm(a) for a in c.args] + [norm(k.value) for k in c.keywords] == [tp], fk.mod, c, norm(c), "the position is taken at another time step than requested", qualname=fk.name)
+    # the interval predicate pairs x with interval 0 and y with interval 1 (wherever it is written)
+    holders = [f for f in ast.walk(fk.fn) if isinstance(f, ast.FunctionDef) and any(isinstance(x, ast.Subscript) and norm(x.value) == "position_intervals" for x in walk_no_nested(f))]
+    res.check("OCC-SCENARIO", "one place tests coordinates against the intervals", len(holders) == 1, fk.mod, fk.fn, "%d functions read position_intervals" % len(holders), "the interval test is missing or duplicated inconsistently", qualname=fk.name)
+    for f in holders:
+        calls = [c for c in walk_no_nested(f) if isinstance(c, ast.Call) and isinstance(c.func, ast.Attribute) and c.func.attr in ("contains", "__contains__")]
         pairs = sorted((norm(c.func.value), norm(c.args[0])) for c in calls if c.args)
-        ok = len(pp) == 1 and pairs == [("position_intervals[0]", "%s[0]" % pp[0]), ("position_intervals[1]", "%s[1]" % pp[0])]
+        coord = {p[1].split("[")[0] for p in pairs}
+        ok = len(coord) == 1 and pairs == [("position_intervals[0]", "%s[0]" % next(iter(coord))), ("position_intervals[1]", "%s[1]" % next(iter(coord)))]
         res.check("OCC-SCENARIO", "interval i is tested against coordinate i", ok, fk.mod, f, "contains pairs %s" % pairs, "x is tested against the y interval or vice versa", qualname=fk.name)
-        conj = [n for n in ast.walk(f) if isinstance(n, ast.BoolOp)]
-        ok = len(conj) == 1 and isinstance(conj[0].op, ast.And)
-        res.check("OCC-SCENARIO", "both coordinates must be inside", ok, fk.mod, f, "predicate %s" % (norm(conj[0]) if conj else "?"), "one coordinate inside its interval suffices", qualname=fk.name)
+        # both must hold: a conjunction, or nested ifs / early `return False` per coordinate
+        conj = [n for n in walk_no_nested(f) if isinstance(n, ast.BoolOp) and sum(1 for c in calls if any(c is x for x in ast.walk(n))) == 2]
+        if conj:
+            ok = all(isinstance(n.op, ast.And) for n in conj)
+        else:
+            from ..flowtools import result_cases as _rc
+            rdf = ReachingDefs(f)
+            ok = True
+            for cs in _rc(fk.mod, f, rdf, []):
+                if isinstance(cs.value, ast.Constant) and cs.value.value is True:
+                    pos = [t for t, p, _n in cs.guards if p]
+                    ok = ok and sum(1 for c in calls if any(norm(c) in t for t in pos)) == 2
+        res.check("OCC-SCENARIO", "both coordinates must be inside", ok, fk.mod, f, "predicate of %s" % f.name, "one coordinate inside its interval suffices", qualname=fk.name)
 
 
 def _filter_guard(guards, lv, attr, pname):
